@@ -20,17 +20,19 @@ CONSTANTS
   LocalCodes = {0, 1}
   MaxSteps = %(steps)d
   FloodEnds = %(ends)s
+  FloodOdds = %(odds)d
 INVARIANTS
   Emit
 """
 
 HARNESS = ["c02ap", "c01"]       # c02ap reuses spWorld / project() / spCollide of harness/c01
-KF_CFG = None                    # "AdjInApKF_%s.cfg" once a known finding needs a weakened invariant
+ENDS_BULK = '{"Down"}'
+ENDS_FD = '{"Down", "DelPeer"}'
 
 
-def gen(run, g, num, seed, steps, ends='{"Down"}'):
+def gen(run, g, num, seed, steps, ends=ENDS_BULK):
     cfg = "AdjInApGen_%s_%d.cfg" % (g, seed)
-    v.write_cfg(run.sc, cfg, GEN_CFG % {"g": g, "steps": steps, "ends": ends})
+    v.write_cfg(run.sc, cfg, GEN_CFG % {"g": g, "steps": steps, "ends": ends, "odds": 3 if ends == ENDS_BULK else 1})
     res = v.tlc(run.sc, "AdjInApGen", cfg, mode="simulate", simulate="num=%d" % num, depth=steps + 5,
                 seed=seed, workers=1, deadlock=False, timeout=900)
     v.require_design_ok(res, "AdjInApGen " + g)
@@ -40,10 +42,11 @@ def gen(run, g, num, seed, steps, ends='{"Down"}'):
 
 
 def design(run, thorough):
-    """Design level: exhaustive exploration of the property layer over a small pool (quick: 3 neighbours x
-    1 prefix x 2 identifiers; thorough adds 2 neighbours x 2 prefixes x 2 identifiers with two-key
-    bursts). No mechanism layer: the invariants are the property layer's own sanity (see MCAdjInAp)."""
-    for name in (["quick", "thorough"] if thorough else ["quick"]):
+    """Design level: exhaustive exploration of the property layer over a small pool (quick: 3 neighbours,
+    one of them with ADD-PATH, x 1 prefix x 2 identifiers, bursts of two keys; thorough adds the pool with
+    two ADD-PATH neighbours and 2 neighbours x 2 prefixes x 2 identifiers). No mechanism layer: the
+    invariants are the property layer's own sanity (see MCAdjInAp)."""
+    for name in (["quick", "mid", "thorough"] if thorough else ["quick"]):
         res = v.tlc(run.sc, "MCAdjInAp", "MCAdjInAp_%s.cfg" % name, workers=min(8, v.NCPU), timeout=2400)
         run.design(res, "AdjInAp %s" % name)
 
@@ -57,31 +60,34 @@ def run_ap(run):
         design(run, thorough)
     num = 40 if not thorough else 300
     steps = 20 if not thorough else 24
-    sets = {}
-    for i, g in enumerate(GROUPS):
-        name = "%s-%s" % (PREFIX, g)
+    # (group, neighbour set, how a flood may end, number of schedules, also in collide mode)
+    # "fd": floods cut off by the REMOVAL of the neighbour - the input shape of the known finding
+    # KF-C02-update-after-delete - are kept out of the bulk and judged as a small batch of their own
+    plan = [(PREFIX + "-" + g, g, ENDS_BULK, num, True) for g in GROUPS]
+    plan.append((PREFIX + "-fd-ebgp3", "ebgp3", ENDS_FD, 6 if not thorough else 30, False))
+    sets = []
+    for i, (name, g, ends, n, coll) in enumerate(plan):
         if run.replay:
-            sets[g] = [run.replay["behaviour"]] if rg in (name, name + "-collide") else []
+            behs = [run.replay["behaviour"]] if rg in (name, name + "-collide") else []
         else:
-            sets[g] = gen(run, g, num, run.seed * 100 + 50 + i, steps)
-    allb = [b for g in GROUPS for b in sets[g]]
-    if not allb:
-        return
+            behs = gen(run, g, n, run.seed * 100 + 50 + i, steps, ends)
+        sets.append(behs)
     for mode in ("", "-collide"):
         if run.replay and rg.endswith("-collide") != (mode == "-collide"):
             continue
-        # one execution for both neighbour sets; "-collide": every prefix of a table in ONE hash bucket
+        part = [(p, b) for p, b in zip(plan, sets) if b and (p[4] or not mode)]
+        if not part:
+            continue
+        # one execution for all neighbour sets; "-collide": every prefix of a table in ONE hash bucket
         # (hook VerifKeyHook of internal/pkg/table), so the collision chains are walked by every step
+        allb = [x for _, b in part for x in b]
         traces = run.execute(HARNESS, "pkg/server", "^TestVerifC02Ap$", allb, tag=PREFIX + mode,
                              env={"VERIF_COLLIDE": 1} if mode else None)
         k = 0
-        for g in GROUPS:
-            n = len(sets[g])
-            if n:
-                kf = (KF_CFG % g) if KF_CFG else None
-                run.validate("AdjInApTrace", "AdjInApTrace_%s.cfg" % g, traces[k:k + n], sets[g],
-                             known_cfg=kf, group="%s-%s%s" % (PREFIX, g, mode))
-            k += n
+        for (name, g, ends, n, coll), behs in part:
+            run.validate("AdjInApTrace", "AdjInApTrace_%s.cfg" % g, traces[k:k + len(behs)], behs,
+                         known_cfg="AdjInApKF_%s.cfg" % g, group=name + mode)
+            k += len(behs)
         key = "aprx_collide_traces" if mode else "aprx_traces"
         run.extra[key] = run.extra.get(key, 0) + len(traces)
 
